@@ -2,6 +2,7 @@
 from __future__ import annotations
 
 import ast
+import copy
 from typing import Dict, Iterable, Iterator, List, Optional, Sequence, Set, Tuple
 
 from .cfg import CFG, cfg_of, node_exprs
@@ -258,6 +259,24 @@ def guards_at(func: FuncInfo, inner: ast.AST) -> List[Tuple[ast.AST, bool]]:
             if norm(ex) != norm(a):
                 extra.extend(split_atoms(ex, pol))
     out.extend(extra)
+    # for x in [y for y in S if P(y)]: ...   - the body runs only for elements with P(x), exactly like  for x in S: if P(x): ...
+    for lp in enclosing_loops(func, inner):
+        if not isinstance(lp, (ast.For, ast.AsyncFor)) or not isinstance(lp.target, ast.Name):
+            continue
+        it = lp.iter
+        if isinstance(it, ast.Name):
+            it = expand_names(func, it)
+        if isinstance(it, (ast.ListComp, ast.GeneratorExp)) and len(it.generators) == 1 and isinstance(it.generators[0].target, ast.Name) \
+                and isinstance(it.elt, ast.Name) and it.elt.id == it.generators[0].target.id and any(inner is y for st in lp.body for y in ast.walk(st)):
+            iv, ov = it.generators[0].target.id, lp.target.id
+            for cnd in it.generators[0].ifs:
+                c2 = copy.deepcopy(cnd)
+                for y in ast.walk(c2):
+                    if isinstance(y, ast.Name) and y.id == iv:
+                        y.id = ov
+                for a_, pol_ in split_atoms(c2, True):
+                    a_._origin = cnd          # where the atom stands in the source (it is a renamed copy)
+                    out.append((a_, pol_))
     return out
 
 
